@@ -264,6 +264,8 @@ def run_T(case):
     comb, ok3 = _as_ints(_call_wht(jnp.asarray(2 * np.array(xs, np.float32) + 3 * z), block, case['jit'], case['kw']))
     obs['linear_ok'] = bool(ok2 and ok3 and comb == [2 * a + 3 * b for a, b in zip(yi, wz)])
     return obs
+  except fw.Hang:
+    raise
   except Exception as ex:  # pylint: disable=broad-except
     return {'err': _err(ex), 'msg': f'{type(ex).__name__}: {str(ex)[:120]}'}
 
@@ -274,6 +276,8 @@ def run_H(case):
   n = 2 ** case['k']
   try:
     m = np.asarray(wh.hadamard_matrix(n, jnp.float32))
+  except fw.Hang:
+    raise
   except Exception as ex:  # pylint: disable=broad-except
     return {'err': _err(ex), 'msg': str(ex)[:120]}
   vals, ok = _as_ints(m.reshape(-1))
@@ -334,6 +338,8 @@ def run_R(case):
             'signs': signs, 'hd_dev': dev, 'keys_tried': nk, 'distinct_patterns': len(pats),
             'same_key_same': bool(np.array_equal(np.asarray(r3), rot_np)),
             'finite': bool(np.all(np.isfinite(rot_np)) and np.all(np.isfinite(np.asarray(back))))}
+  except fw.Hang:
+    raise
   except Exception as ex:  # pylint: disable=broad-except
     return {'err': _err(ex), 'msg': f'{type(ex).__name__}: {str(ex)[:160]}'}
 
@@ -369,6 +375,8 @@ def run_B(case):
             'back_shape': list(back.shape), 'back_err': float(np.max(np.abs(back.reshape(-1) - np.array(xs, np.float64)))),
             'norm_in': float(np.sum(np.array(xs, np.float64) ** 2)), 'norm_out': float(np.sum(rot_np.astype(np.float64) ** 2)),
             'other_key_differs': bool(s2 != signs)}
+  except fw.Hang:
+    raise
   except Exception as ex:  # pylint: disable=broad-except
     return {'err': _err(ex), 'msg': f'{type(ex).__name__}: {str(ex)[:160]}'}
 
@@ -411,6 +419,8 @@ def run_P(case):
                      'back': _floats(b), 'back_shape': list(np.asarray(b).shape), 'signs': signs, 'hd_dev': dev})
     return {'err': None, 'same_struct': bool(same_struct), 'n_leaves': [len(shapes), len(rl), len(bl), len(sl)],
             'leaves': leaves}
+  except fw.Hang:
+    raise
   except Exception as ex:  # pylint: disable=broad-except
     return {'err': _err(ex), 'msg': f'{type(ex).__name__}: {str(ex)[:160]}'}
 
